@@ -138,6 +138,9 @@ def name_char_table(facts):
         raise AnchorMissing(name)
     nx = [b for b, t in fn.calls() if (t.get('callee') or '').endswith('Iterator::next')]
     if len(nx) != 1:
+        alt = _name_char_table_by_predicate(facts, fn)
+        if alt is not None:
+            return alt
         raise AnchorMissing(name + ': chars().next()')
     var, blk = _some_payload_local(fn, nx[0])
     if var is None:
@@ -152,6 +155,79 @@ def name_char_table(facts):
 
     rows, consts = decision_table(fn, var, fn.local_ty(var[0]), blk, classify, pin=True)
     return fn, rows, consts
+
+
+def _name_char_table_by_predicate(facts, fn):
+    """the character test written as `name.chars().all(pred)` (or `!..any(pred)`): the table of the predicate function
+    over all code points, mapped to what the caller does with the adaptor's verdict (the arm on which the
+    unsupported-character error is built)"""
+    from analyses import switch_source, nonzero_targets, zero_targets
+    for b, t in fn.calls():
+        callee = t.get('callee') or ''
+        if callee not in ('core::iter::traits::iterator::Iterator::all', 'core::iter::traits::iterator::Iterator::any'):
+            continue
+        if len(t['args']) < 2:
+            continue
+        rp = op_place(t['args'][0])
+        rty = fn.local_ty(rp['l']) if rp is not None else None
+        for _ in range(2):
+            if rty is not None and rty.get('k') in ('ref', 'ptr'):
+                rty = fn.types[rty['to']]
+        if not rty or not rty.get('path', '').endswith('::Chars'):
+            continue
+        # the predicate: a function item (constant operand) or a closure built in this function
+        pred = None
+        pparam = 1
+        c = op_const(t['args'][1])
+        if c is not None and c.get('fn'):
+            pred = facts.fns.get(c['fn'])
+        else:
+            cp = op_place(t['args'][1])
+            pty = fn.local_ty(cp['l']) if cp is not None else None
+            if pty is not None and pty.get('k') == 'fndef':
+                pred = facts.fns.get(pty.get('def') or pty.get('path') or '')
+            for bi in fn.reachable():
+                for s in fn.blocks[bi]['stmts']:
+                    if cp is not None and s['k'] == 'assign' and s['lhs']['l'] == cp['l'] and s['rv']['k'] == 'agg' and \
+                            s['rv'].get('ak') == 'closure':
+                        pred = facts.fns.get(s['rv']['def'])
+                        pparam = 2
+        if pred is None or pred.argc < pparam or (pred.local_ty(pparam) or {}).get('k') != 'char':
+            continue
+        # which verdict of the adaptor leads to the unsupported-character error?
+        rej_on = None
+        for bi in fn.reachable():
+            tt = fn.blocks[bi]['term']
+            if tt['k'] != 'switch':
+                continue
+            src = switch_source(fn, bi)
+            if src and src['kind'] == 'call' and src.get('blk') == b:
+                for val, arms in ((1, nonzero_targets(tt)), (0, zero_targets(tt))):
+                    reach = fn.reach_from(list(arms), cut_blocks=[bi])
+                    if any(agg_variant_in_block(fn, x, 'fatfs::error::Error') == 'UnsupportedFileNameCharacter' for x in reach):
+                        other = fn.reach_from([a for a in fn.succ(bi) if a not in arms], cut_blocks=[bi])
+                        if not any(agg_variant_in_block(fn, x, 'fatfs::error::Error') == 'UnsupportedFileNameCharacter'
+                                   for x in other):
+                            rej_on = val
+        if rej_on is None:
+            continue
+        is_all = callee.endswith('::all')
+        # all(): verdict false <=> some char has pred false;  any(): verdict true <=> some char has pred true
+        bad_pred_value = 0 if is_all else 1
+        if (is_all and rej_on != 0) or (not is_all and rej_on != 1):
+            continue  # the error is built when every character passes: not a character filter
+
+        def classify(w, blk2, env, refs, phase):
+            if phase == 'exit':
+                v = env.get((0, ()))
+                if v is None:
+                    return 'unknown'
+                return 'reject:UnsupportedFileNameCharacter' if v == bad_pred_value else 'LOOP'
+            return None
+
+        rows, consts = decision_table(pred, (pparam, ()), pred.local_ty(pparam), 0, classify, pin=True, facts=facts)
+        return fn, rows, consts
+    return None
 
 
 def name_len_table(facts):
